@@ -169,17 +169,14 @@ func genCLI(t *rapid.T) cliCase {
 			// an upper-case character (or the gap) of the first alignment, sometimes an absent one
 			r := c.Ali.Rows[rapid.IntRange(0, len(c.Ali.Rows)-1).Draw(t, "onlyrow")].Seq
 			ch := fold(r[rapid.IntRange(0, len(r)-1).Draw(t, "onlycol")])
-			if c.Cmd != "char-per-sites" && rapid.IntRange(0, 3).Draw(t, "absent") == 0 {
-				ch = 'W'
+			if rapid.IntRange(0, 3).Draw(t, "absent") == 0 {
+				// a character that (most often) does not occur: 0 everywhere, in all three forms (for the
+				// per-site form since fix 7377ee2); with several alignments in the file a character of
+				// the first one is often absent from the others too
+				ch = rapid.SampledFrom([]byte{'W', 'Q', 'Z', 'J'}).Draw(t, "absentchar")
 			}
 			if ch == '-' || (ch >= 'A' && ch <= 'Z') {
 				c.Only = string(ch)
-			}
-			if c.Cmd == "char-per-sites" {
-				c.More = nil // the character must occur in the alignment for the per-site form
-				if strings.IndexByte(strings.Join(seqsOfAli(c.Ali), ""), ch) < 0 {
-					c.Only = "" // present only in lower case: the per-site profile is case sensitive
-				}
 			}
 		}
 	}
